@@ -577,7 +577,11 @@ func (r *Reader) markdown(opts ExtractOptions, nameLevel int) (string, error) {
 		for col := minCol; col <= maxCol; col++ {
 			result.WriteString(" ")
 			if minRow < len(sheet.Rows) && col < len(sheet.Rows[minRow]) {
-				result.WriteString(escapeMarkdown(sheet.Rows[minRow][col].Value))
+				// as in the data rows: only the root of a merged region carries the value
+				cell := sheet.Rows[minRow][col]
+				if !cell.IsMerged || cell.IsMergeRoot {
+					result.WriteString(escapeMarkdown(cell.Value))
+				}
 			}
 			result.WriteString(" |")
 		}
